@@ -7,7 +7,7 @@ from ..core import unhx
 THEOREMS = ['events_errors', 'error_line_exact', 'errors_in_file_order', 'message_quotes_line', 'book_fails_first', 'walk_fails_first', 'csv_database_fails_first', 'lint_lists_all']
 LEVEL = 'proof'
 RULE = ('k in 0..4 malformed lines (no blank before the value / value not a number) planted inside records of generated well-formed files '
-        '(blank lines, comments, notes, CRLF) x every file-reading command x lint with and without --silent; '
+        '(blank lines, comments, notes, CRLF, one comment or note line of 4 to 60 KB) x every file-reading command x lint with and without --silent; '
         'non-trivial = k >= 1 and the first planted line is not line 2; distinct by file hash')
 ASSUMPTIONS = ["lint's exit status on a file with errors is not asserted (the statement gives lint its own clause)"]
 
@@ -49,8 +49,18 @@ def build_file(g, records, k, crlf):
     if r.random() < 0.2:
         lines.append(b'')
     slots = []
-    for rec in records:
+    long_at = r.randrange(len(records)) if records and r.random() < 0.15 else None
+    for ri, rec in enumerate(records):
         start = len(lines)
+        if ri == long_at:
+            # one long line (a comment above the record, or a note inside it) below the 64 KiB limit of the line reader, around and
+            # above the sizes of its internal buffers: it is one line, and the lines after it keep their numbers
+            n = r.choice([4094, 4095, 4096, 4097, 5000, 8192, 8193, 20000, 60000])
+            if r.random() < 0.5:
+                lines.append(b'# ' + b'x' * n)
+                start = len(lines)
+            else:
+                rec = [rec[0], b'  # ' + b'y' * n] + list(rec[1:])
         lines.extend(rec)
         slots.extend(range(start + 1, len(lines) + 1))   # positions after the heading, inside the record
         if r.random() < 0.7:
